@@ -35,3 +35,15 @@ Theorem C04_projection_independent : forall o orc f rd1 rd2 ext1 ext2 c,
   filter (has_code c) (lint_inner o orc f rd1 ext1) = filter (has_code c) (lint_inner o orc f rd2 ext2).
 Proof. exact projection_independent. Qed.
 Print Assumptions C04_projection_independent.
+
+From V Require Import Gen.CodeTable Pipeline.CodeTableFacts.
+(* generated from /repo/src/rules/*.rs on every run: every rule file has a CODE, `code()` returns it, every
+   diagnostic call site passes that CODE, and no rule reads `ctx.diagnostics()` (other rules' output) *)
+Theorem C04_every_rule_emits_only_its_own_code : forallb row_ok code_table = true.
+Proof. exact every_rule_emits_only_its_own_code. Qed.
+Print Assumptions C04_every_rule_emits_only_its_own_code.
+
+Theorem C04_rule_codes_distinct :
+  nodupb (map (fun r => snd (fst (fst (fst (fst r))))) code_table) = true.
+Proof. exact rule_codes_distinct. Qed.
+Print Assumptions C04_rule_codes_distinct.
